@@ -157,3 +157,399 @@ for q in ('LocalModelDirectoryDatabase.transaction', 'LocalModelDirectoryDatabas
     c = M.contract(q, params={'obj': Opaque('Obj')})
     c.monitor = 'pending'
     c.sidecar_module = 'contracts.modeldb'
+
+
+# ================================================================================================
+# store_model over an abstract file system, with a crash obligation after every effect
+# ================================================================================================
+def _symbolic_store():
+    import ast
+    import z3
+
+    from pyvc import sym
+    from pyvc.monitor import MonitorSpec
+    from pyvc.symexec import NONE, BoolV, OutOfSubset, SObj, Val, PyTuple
+    from pyvc.sym import TBool, TInt, TOpaque, TSeq, TStr
+
+    P = TOpaque('FsPath')
+    Mdl = TOpaque('ModelObj')
+    DI = TOpaque('DataInfoObj')
+    KeyT = TOpaque('ModelKey')
+    ABSENT, DIR, FILE = 0, 1, 2
+    join = z3.Function('path_join', P.sort(), TStr.sort(), P.sort())
+    parent = z3.Function('path_parent', P.sort(), P.sort())
+    pname = z3.Function('path_name', P.sort(), TStr.sort())
+    keystr = z3.Function('key_str', KeyT.sort(), TStr.sort())
+    hashstr = z3.Function('hash_str', TOpaque('DsHash').sort(), TStr.sort())
+    base = z3.Function('name_data_n', z3.IntSort(), TStr.sort())        # 'data<n>'
+    csv = z3.Function('name_plus_csv', TStr.sort(), TStr.sort())         # x + '.csv'
+    dinfo = z3.Function('name_plus_datainfo', TStr.sort(), TStr.sort())  # x + '.datainfo'
+    stem = z3.Function('name_stem', TStr.sort(), TStr.sort())
+    is_data = z3.Function('name_is_data_csv', TStr.sort(), z3.BoolSort())
+    num = z3.Function('name_data_number', TStr.sort(), z3.IntSort())
+    ext_of = z3.Function('model_extension', Mdl.sort(), TStr.sort())
+    mname = z3.Function('name_model_plus_ext', TStr.sort(), TStr.sort())  # 'model' + ext
+    SP = TSeq(P)
+
+    def fs(st):
+        return st.mon['fs']
+
+    def kind(st, p):
+        return z3.Select(fs(st), p)
+
+    def name_fs(st, term):
+        c = z3.Const(sym.fresh_name('fs'), term.sort())
+        st.assume(c == term)
+        st.mon['fs'] = c
+
+    def setk(st, p, k):
+        name_fs(st, z3.Store(fs(st), p, z3.IntVal(k)))
+
+    def path_axioms(st):
+        p = z3.Const(sym.fresh_name('p'), P.sort())
+        n = z3.Const(sym.fresh_name('n'), TStr.sort())
+        b = z3.Const(sym.fresh_name('b'), TStr.sort())
+        k = z3.Int(sym.fresh_name('k'))
+        st.facts.add(z3.ForAll([p, n], z3.And(parent(join(p, n)) == p, pname(join(p, n)) == n),
+                               patterns=[join(p, n)]))
+        st.facts.add(z3.ForAll([b], stem(csv(b)) == b, patterns=[csv(b)]))
+        st.facts.add(z3.ForAll([k], z3.And(is_data(csv(base(k))), num(csv(base(k))) == k),
+                               patterns=[csv(base(k))]))
+        # the path tree is well founded: a child is one level deeper than its parent
+        depth = z3.Function('path_depth', P.sort(), z3.IntSort())
+        st.facts.add(z3.ForAll([p, n], depth(join(p, n)) == depth(p) + 1, patterns=[join(p, n)]))
+        # string facts about the names involved ('.hash' is not a data<n>.csv name, a name ending
+        # in '.datainfo' is neither '.hash' nor a data<n>.csv name)
+        st.facts.add(z3.Not(is_data(sym.str_lit('.hash'))))
+        st.facts.add(z3.ForAll([b], z3.And(z3.Not(is_data(dinfo(b))), dinfo(b) != sym.str_lit('.hash'),
+                                           csv(b) != sym.str_lit('.hash')), patterns=[dinfo(b), csv(b)]))
+        # database keys are 43-character hash strings: never the name of the dataset directory
+        kk = z3.Const(sym.fresh_name('kk'), KeyT.sort())
+        st.facts.add(z3.ForAll([kk], keystr(kk) != sym.str_lit('.datasets'), patterns=[keystr(kk)]))
+
+    class Roots:
+        pass
+
+    def roots(st):
+        db = st.env['self'].fields['database_path'].t
+        datasets = join(db, sym.str_lit('.datasets'))
+        hashroot = join(datasets, sym.str_lit('.hash'))
+        return db, datasets, hashroot
+
+    def DS(st, tolerant):
+        """recovery invariant of the dataset index: every index entry (a file in a directory
+        .datasets/.hash/<h>/) names a stored dataset whose csv AND datainfo exist; unless the reader
+        tolerates it, an index directory is never empty"""
+        db, datasets, hashroot = roots(st)
+        e = z3.Const(sym.fresh_name('e'), P.sort())
+        d = z3.Const(sym.fresh_name('d'), P.sort())
+        w = z3.Const(sym.fresh_name('w'), P.sort())
+        def proper(x):
+            return x == join(parent(x), pname(x))
+
+        entries_ok = z3.ForAll([e], z3.Implies(
+            z3.And(parent(parent(e)) == hashroot, proper(e), proper(parent(e)), kind(st, e) != ABSENT),
+            z3.And(kind(st, join(datasets, pname(e))) == FILE,
+                   kind(st, join(datasets, dinfo(stem(pname(e))))) == FILE)),
+            patterns=[kind(st, e)])
+        layout = z3.And(kind(st, datasets) != FILE, kind(st, hashroot) != FILE,
+                        z3.ForAll([d], z3.Implies(z3.And(parent(d) == hashroot, proper(d)), kind(st, d) != FILE),
+                                  patterns=[kind(st, d)]))
+        res = [('DS0 the directories of the dataset store are not files', layout),
+               ('DS1 every dataset index entry points to an existing csv and datainfo', entries_ok)]
+        if not tolerant:
+            nonempty = z3.ForAll([d], z3.Implies(
+                z3.And(parent(d) == hashroot, proper(d), kind(st, d) == DIR),
+                z3.Exists([w], z3.And(parent(w) == d, w == join(d, pname(w)), kind(st, w) != ABSENT))),
+                patterns=[kind(st, d)])
+            res.append(('DS2 a dataset index directory is never empty', nonempty))
+        return res
+
+    class Store(MonitorSpec):
+        name = 'store_model'
+
+        def setup(self, ex, st):
+            st.env['self'] = SObj('Transaction', {
+                'database_path': Val(P, z3.Const('db_path', P.sort())),
+                'key': Val(KeyT, z3.Const('key', KeyT.sort())),
+                'model': Val(Mdl, z3.Const('model0', Mdl.sort())),
+            })
+            for n, v in (('DIRECTORY_DATASETS', '.datasets'), ('DIRECTORY_INDEX', '.hash')):
+                st.env[n] = Val(TStr, sym.str_lit(v))
+            st.mon['fs'] = z3.Const('fs0', z3.ArraySort(P.sort(), z3.IntSort()))
+            st.mon['effects'] = 0
+            path_axioms(st)
+            st.mon['tolerant'] = reader_is_tolerant(ex)
+
+        def havoc(self, ex, st):
+            pass
+
+        def inv(self, ex, st):
+            if st.mon.get('checking'):
+                return DS(st, st.mon['tolerant'])
+            return []
+
+        def local_pre(self, ex, st, point):
+            # the store starts from a file system satisfying the recovery invariant (it holds of
+            # the empty database and is re-established by every effect - that is what is proved)
+            st.mon['checking'] = True
+            fs0 = [f for _, f in DS(st, st.mon['tolerant'])]
+            db, datasets, hashroot = roots(st)
+            key_dir = join(db, keystr(st.env['self'].fields['key'].t))
+            # layout: the database root is a directory and <db>/<key> is a directory or absent
+            return fs0 + [kind(st, db) == DIR, kind(st, key_dir) != FILE]
+
+        def on_raise(self, ex, st, exc, lineno):
+            ex.oblige(st, 'raises', f'store_model raises {exc} although the recovery invariant held on entry '
+                      '(storing a model must still work after an earlier interrupted store)',
+                      z3.BoolVal(False), lineno, f'no {exc}')
+
+    spec = Store()
+    MONITORS['store'] = spec
+
+    def reader_is_tolerant(ex):
+        """syntactic: does the lookup of an existing index entry tolerate an empty index directory
+        (`next(h_dir.iterdir(), None)` / any(...)) ?"""
+        src = ast.unparse(ex._funcs['LocalModelDirectoryDatabaseTransaction.store_model'])
+        return 'next(h_dir.iterdir(), None)' in src
+
+    def effect(ex, st, what, node):
+        """crash obligation: the recovery invariant holds of the state reached so far"""
+        st.mon['effects'] += 1
+        for label, f in DS(st, st.mon['tolerant']):
+            ex.oblige(st, 'crash', f'crash after effect #{st.mon["effects"]} ({what}): {label}', f,
+                      getattr(node, 'lineno', 0), f'{label} after {what}', keep=True)
+
+    # ---- attribute / call models -------------------------------------------------------------
+    @M.intrinsic('attr:model_entry')
+    def _me(ex, st, args, kwargs, node):
+        return SObj('ModelEntry', {'model': args[0].fields['model']}) if isinstance(args[0], SObj) else NotImplemented
+
+    @M.intrinsic('attr:database')
+    def _db(ex, st, args, kwargs, node):
+        if isinstance(args[0], SObj) and args[0].cls == 'Transaction':
+            return SObj('Database', {'path': args[0].fields['database_path']})
+        return NotImplemented
+
+    @M.intrinsic('attr:dataset_hash')
+    def _dh(ex, st, args, kwargs, node):
+        return Val(TOpaque('DsHash'), z3.Const('dataset_hash', TOpaque('DsHash').sort()))
+
+    @M.intrinsic('attr:filename_extension')
+    def _fe(ex, st, args, kwargs, node):
+        return Val(TStr, ext_of(args[0].t))
+
+    @M.intrinsic('attr:datainfo')
+    def _di(ex, st, args, kwargs, node):
+        f = z3.Function('model_datainfo', Mdl.sort(), DI.sort())
+        return Val(DI, f(args[0].t))
+
+    @M.intrinsic('attr:name')
+    def _nm(ex, st, args, kwargs, node):
+        if isinstance(args[0], Val) and args[0].ty == P:
+            return Val(TStr, pname(args[0].t))
+        return NotImplemented
+
+    @M.intrinsic('attr:path')
+    def _pth(ex, st, args, kwargs, node):
+        if isinstance(args[0], Val) and args[0].ty == DI:
+            f = z3.Function('datainfo_path', DI.sort(), P.sort())
+            return Val(P, f(args[0].t))
+        return NotImplemented
+
+    _old_with = M.intrinsics['with']
+    _old_str = M.intrinsics['str']
+
+    def _str(ex, st, args, kwargs, node):
+        v = args[0]
+        if v.ty.key() == 'DsHash':
+            return Val(TStr, hashstr(v.t))
+        return _old_str(ex, st, args, kwargs, node)
+
+    M.intrinsics['str'] = _str
+
+    @M.intrinsic('binop:Add')
+    def _add(ex, st, args, kwargs, node):
+        a, b = args
+        if isinstance(a, Val) and a.ty is TStr and isinstance(b, Val) and b.ty is TStr:
+            if z3.eq(a.t, sym.str_lit('model')):
+                return Val(TStr, mname(b.t))
+            if z3.eq(b.t, sym.str_lit('.datainfo')):
+                return Val(TStr, dinfo(a.t))
+            if z3.eq(b.t, sym.str_lit('.csv')):
+                return Val(TStr, csv(a.t))
+        raise OutOfSubset('string concatenation')
+
+    @M.intrinsic('fstring')
+    def _fstring(ex, st, args, kwargs, node):
+        src = ast.unparse(node)
+        if src == "f'data{highest + 1}'":
+            return Val(TStr, base(ex.to_term(st.env['highest'], TInt, st) + 1))
+        if src == "f'{dataset_basename}.csv'":
+            return Val(TStr, csv(st.env['dataset_basename'].t))
+        raise OutOfSubset('f-string ' + src)
+
+    @M.intrinsic('path_absolute')
+    def _abs(ex, st, args, kwargs, node):
+        return args[0]
+
+    @M.intrinsic('method:is_file')
+    def _is_file(ex, st, args, kwargs, node):
+        return Val(TBool, kind(st, args[0].t) == FILE)
+
+    @M.intrinsic('method:is_dir')
+    def _is_dir(ex, st, args, kwargs, node):
+        return Val(TBool, kind(st, args[0].t) == DIR)
+
+    def children(ex, st, p):
+        L = SP.fresh('listing')
+        ex.ops(st).known(SP, L)
+        k = z3.Int(sym.fresh_name('k'))
+        q = z3.Const(sym.fresh_name('q'), P.sort())
+        st.facts.add(z3.ForAll([k], z3.Implies(z3.And(0 <= k, k < SP.f_len(L)),
+                                               z3.And(parent(SP.f_at(L, k)) == p,
+                                                      SP.f_at(L, k) == join(p, pname(SP.f_at(L, k))),
+                                                      kind(st, SP.f_at(L, k)) != ABSENT)),
+                               patterns=[SP.f_at(L, k)]))
+        st.facts.add(z3.ForAll([q], z3.Implies(z3.And(parent(q) == p, q == join(p, pname(q)),
+                                                      kind(st, q) != ABSENT),
+                                               z3.Exists([k], z3.And(0 <= k, k < SP.f_len(L),
+                                                                     SP.f_at(L, k) == q))),
+                               patterns=[kind(st, q)]))
+        return Val(SP, L)
+
+    @M.intrinsic('method:iterdir')
+    def _iterdir(ex, st, args, kwargs, node):
+        return children(ex, st, args[0].t)
+
+    @M.intrinsic('next')
+    def _next(ex, st, args, kwargs, node):
+        s = args[0]
+        if len(args) == 2:
+            # next(it, None): tolerant form
+            from pyvc.symexec import OptVal
+            return OptVal(SP.f_len(s.t) > 0, Val(P, SP.f_at(s.t, 0)))
+        ex.safety(st, SP.f_len(s.t) > 0, 'next() of a non-empty directory listing (StopIteration otherwise)', node)
+        return Val(P, SP.f_at(s.t, 0))
+
+    @M.intrinsic('method:with_suffix')
+    def _ws(ex, st, args, kwargs, node):
+        p = args[0].t
+        return Val(P, join(parent(p), dinfo(stem(pname(p)))))
+
+    @M.intrinsic('DataInfo.read_json')
+    def _rj(ex, st, args, kwargs, node):
+        ex.safety(st, kind(st, args[0].t) == FILE, 'DataInfo.read_json of an existing file (FileNotFoundError otherwise)', node)
+        return Val(DI, DI.fresh('curdi'))
+
+    @M.intrinsic('method:startswith')
+    def _sw(ex, st, args, kwargs, node):
+        return Val(TBool, is_data(args[0].t))
+
+    @M.intrinsic('method:endswith')
+    def _ew(ex, st, args, kwargs, node):
+        return Val(TBool, is_data(args[0].t))
+
+    @M.intrinsic('is_data_name')
+    def _idn(ex, st, args, kwargs, node):
+        return Val(TBool, is_data(pname(args[0].t)))
+
+    @M.intrinsic('data_number')
+    def _dn(ex, st, args, kwargs, node):
+        return Val(TInt, num(pname(args[0].t)))
+
+    class NumStr:
+        def __init__(self, n):
+            self.n = n
+
+    @M.intrinsic('slice')
+    def _slice(ex, st, args, kwargs, node):
+        base, sl = args
+        if isinstance(base, Val) and base.ty is TStr and ast.unparse(sl) == '4:-4':
+            return NumStr(base.t)  # the digits between 'data' and '.csv'
+        return NotImplemented
+
+    @M.intrinsic('int')
+    def _int(ex, st, args, kwargs, node):
+        if isinstance(args[0], NumStr):
+            return Val(TInt, num(args[0].n))
+        raise OutOfSubset('int()')
+
+    @M.intrinsic('method:replace')
+    def _replace(ex, st, args, kwargs, node):
+        v = args[0]
+        return Val(v.ty, v.ty.fresh('replaced'))
+
+    @M.intrinsic('write_csv')
+    def _wcsv(ex, st, args, kwargs, node):
+        ex.oblige(st, 'frame', 'the dataset is written under a fresh name: no stored dataset file is overwritten',
+                  kind(st, kwargs['path'].t) == ABSENT, node.lineno, 'dataset csv path is fresh', keep=True)
+        setk(st, kwargs['path'].t, FILE)
+        effect(ex, st, 'write dataset csv', node)
+        return Val(Mdl, Mdl.fresh('written'))
+
+    # effects (statement level so that the crash obligation follows the state change) -----------
+    @M.intrinsic('stmt-method:mkdir')
+    def _mkdir(ex, st, call):
+        if ex.mspec.name != 'store_model':
+            return NotImplemented
+        p = ex.eval(call.func.value, st)
+        if not (isinstance(p, Val) and p.ty == P):
+            return NotImplemented
+        # mkdir(parents=True, exist_ok=True) raises FileExistsError if the path (or the parent) is a file
+        ex.safety(st, z3.And(kind(st, p.t) != FILE, kind(st, parent(p.t)) != FILE),
+                  'mkdir target and its parent are not files', call)
+        setk(st, p.t, DIR)
+        setk(st, parent(p.t), DIR)
+        effect(ex, st, 'mkdir ' + ast.unparse(call.func.value), call)
+        return [(st, ('next',))]
+
+    _touch_pending = M.intrinsics['stmt-method:touch']
+
+    @M.intrinsic('stmt-method:touch')
+    def _touch(ex, st, call):
+        if ex.mspec.name != 'store_model':
+            return _touch_pending(ex, st, call)
+        p = ex.eval(call.func.value, st)
+        name_fs(st, z3.Store(fs(st), p.t, z3.If(kind(st, p.t) == ABSENT, FILE, kind(st, p.t))))
+        effect(ex, st, 'touch ' + ast.unparse(call.func.value), call)
+        return [(st, ('next',))]
+
+    @M.intrinsic('stmt-method:to_json')
+    def _to_json(ex, st, call):
+        p = ex.eval(call.args[0], st)
+        setk(st, p.t, FILE)
+        effect(ex, st, 'write datainfo', call)
+        return [(st, ('next',))]
+
+    @M.intrinsic('stmt:write_model')
+    def _wm(ex, st, call):
+        p = ex.eval(call.args[1], st)
+        setk(st, p.t, FILE)
+        effect(ex, st, 'write model file', call)
+        return [(st, ('next',))]
+
+
+def _install_store():
+    import ast
+    import z3
+    from pyvc import sym
+    from pyvc.symexec import Val, OutOfSubset
+    from pyvc.sym import TStr
+
+    _symbolic_store()
+
+
+try:
+    import z3  # noqa: F401
+    _install_store()
+except ImportError:
+    pass
+
+c = M.contract('LocalModelDirectoryDatabaseTransaction.store_model', params={},
+               loops=[Loop(counter='k0', seq='LISTING', inv=[
+                   'highest >= 0',
+                   'all(implies(is_data_name(LISTING[q]), data_number(LISTING[q]) <= highest) for q in range(k0))',
+               ])])
+c.monitor = 'store'
+c.sidecar_module = 'contracts.modeldb'
